@@ -36,9 +36,19 @@ Theorem C12_modification_keeps_refcounts : forall w peer seq seid o e s,
 Proof. exact handle_mod_RefInv. Qed.
 Print Assumptions C12_modification_keeps_refcounts.
 
+(* ... and, since fix "Create PDR for a held id replaces its associations", for ANY Create PDR ids (naming PDRs the session
+   holds, repeated in one request): only room below 65536 PDRs is required *)
+Theorem C12_modification_keeps_refcounts_any_ids : forall w peer seq seid o e s,
+  WInv w -> live w seid s -> RefInv s -> cpdr_room o s ->
+  exists w' out, handle_mod w peer seq seid IeAbsent o e = Ok (w', out) /\
+    (w' = w \/ exists s', live w' seid s' /\ RefInv s').
+Proof. exact handle_mod_RefInv_room. Qed.
+Print Assumptions C12_modification_keeps_refcounts_any_ids.
+
 (* per operation *)
-Theorem C12_create_pdr : forall e o c, RefInv (c_s c) -> pdr_fresh o (c_s c) -> RefInv (c_s (create_pdr e o c)).
-Proof. exact create_pdr_RefInv. Qed.
+Theorem C12_create_pdr : forall e o c,
+  RefInv (c_s c) -> N.of_nat (length (s_pdrs (c_s c))) + 1 < 65536 -> RefInv (c_s (create_pdr e o c)).
+Proof. exact create_pdr_RefInv_any. Qed.
 Print Assumptions C12_create_pdr.
 Theorem C12_update_pdr : forall e o c, RefInv (c_s c) -> RefInv (c_s (fst (update_pdr e o c))).
 Proof. exact update_pdr_RefInv. Qed.
@@ -153,17 +163,19 @@ Theorem C12_deletion_reports_once : forall e c c' rs u,
 Proof. exact deletion_reports_once. Qed.
 Print Assumptions C12_deletion_reports_once.
 
-(* FINDING (the hypothesis pdr_fresh / cpdr_wf cannot be dropped): a Create PDR whose PDR id the session already
-   has increments refPdrNum again (before the driver rejects the rule); Remove PDR then returns no final usage *)
-Example C12_create_pdr_existing_id_refuted :
+(* the history of the former finding create-pdr-existing-id (fixed): a Create PDR whose PDR id the session already has is
+   rejected by the data plane and leaves the reference counts alone; Remove PDR then finds the URR's last reference,
+   queries it and returns its final usage *)
+Example C12_create_pdr_existing_id_exact :
   match run (init 0 1) dup_pdr_history with
   | Ok (w, os) =>
-      nth 3 os [] = [ODrv DRemove KPDR 1 1 true; OSend 0 (PModRsp 4 10 CauseAccepted []) false] /\
+      map (fun x => match x with ODrv a b c d ok => Some (a, b, c, d, ok) | _ => None end) (firstn 2 (nth 3 os []))
+        = [Some (DRemove, KPDR, 1, 1, true); Some (DQuery, KURR, 1, 7, true)] /\
       map (option_map (fun s => (s_pdrs s, map (fun x => (fst x, ui_ref (snd x))) (s_urrs s)))) (w_slots w)
-        = [Some ([], [(7, 1)])]
+        = [Some ([], [(7, 0)])]
   | Fault _ => False
   end.
-Proof. exact create_pdr_existing_id_refuted. Qed.
+Proof. exact create_pdr_existing_id_exact. Qed.
 
 (* non-vacuity: Create URR 7, 8 + PDR 1 {7}; Update PDR 1 -> {7, 8}; Remove PDR 1: both URRs lose their last PDR,
    one QueryURR each, two reports with TERMR (2048) in the Modification Response *)
